@@ -308,9 +308,20 @@ func (m *sqlInst) Body() {
 	ev := func(i int) *eventbus.Event {
 		return &eventbus.Event{Type: "x", Data: json.RawMessage(fmt.Sprintf(`{"i":%d}`, i)), Timestamp: time.Unix(int64(i), 0)}
 	}
+	hd.Store.Append(bg, ev(10))
+	hd.Store.Append(bg, ev(11))
 	do := map[string]func(){
 		"Append": func() { hd.Store.Append(bg, ev(2)) },
-		"Read":   func() { hd.Store.Read(bg, eventbus.OffsetOldest, 0) },
+		// what Read returns is the caller's: it is extended and overwritten here, as a caller
+		// that merges the events of two stores would (a log of three events: a slice that
+		// shared the store's memory would have room for one more)
+		"Read": func() {
+			evs, _, _ := hd.Store.Read(bg, eventbus.OffsetOldest, 0)
+			h.CallerOwned(func() {
+				evs = append(evs, &eventbus.StoredEvent{})
+				evs[0] = nil
+			})
+		},
 		"ReadStream": func() {
 			if hd.Stream == nil {
 				hd.Store.Read(bg, eventbus.OffsetOldest, 1)
